@@ -846,6 +846,23 @@ func Run(r *core.Run) {
 	if root, err := filepath.EvalSymlinks(r.Scratch); err == nil {
 		r.Scratch = root
 	}
+	if r.Replay != "" {
+		// re-run exactly the scenario of a replay file (no design checks)
+		var rp struct {
+			Detail struct {
+				Scenario scenario `json:"scenario"`
+			} `json:"detail"`
+		}
+		b, err := os.ReadFile(r.Replay)
+		if err != nil || json.Unmarshal(b, &rp) != nil || rp.Detail.Scenario.Family == "" {
+			r.Infra("cannot read the scenario of replay file %s", r.Replay)
+			return
+		}
+		drift := 0
+		runBatch(r, []scenario{rp.Detail.Scenario}, 0, &drift)
+		r.Set("rule", "replay of one scenario")
+		return
+	}
 	var wg sync.WaitGroup
 	wg.Add(1)
 	go func() {
